@@ -114,6 +114,7 @@ func (m *Mutex) Lock() {
 	m.setLocked(true, t.ID)
 	t.NoteAcquire()
 	m.real.Lock()
+	simrt.HoldPoint()
 }
 
 // TryLock tries to lock m.
@@ -255,6 +256,7 @@ func (m *RWMutex) Lock() {
 	m.setW(true, true, true, t.ID)
 	t.NoteAcquire()
 	m.real.Lock()
+	simrt.HoldPoint()
 }
 
 // TryLock tries to lock m for writing.
@@ -331,6 +333,7 @@ func (m *RWMutex) RLock() {
 	m.addReaders(1)
 	t.NoteAcquire()
 	m.real.RLock()
+	simrt.HoldPoint()
 }
 
 // TryRLock tries to lock m for reading.
